@@ -267,3 +267,7 @@ Example window_rule_example :
   lowLimit (w (enforce_max_dist (check_dict_validity s 5002 2048) 3002 2048)) = 954 /\
   lowest_match_index (enforce_max_dist (check_dict_validity s 5002 2048) 3002 2048) 4000 2048 = 1952.
 Proof. vm_compute. repeat split; reflexivity. Qed.
+
+(* the hypotheses of the two history theorems are satisfiable (any history with sizes >= 0 and at least one block per non-empty segment) *)
+Example fseg_ok_example : Forall fseg_ok [(50000, 1000, false, [1000]); (51000, 500, false, [500]); (900, 0, true, [])] /\ Forall seg_ok [(50000, 1000, false); (70000, 0, true)].
+Proof. split; repeat constructor; cbn; try lia; try discriminate. Qed.
